@@ -365,12 +365,16 @@ class Evaluator:
         nums = []
         for a in args:
             v = self.ev(a, sheet, at)
+            if a[0] == 'ref' and isinstance(v, list):
+                raise NoOpinion('a cell whose value is a list as an argument of an aggregate')
             if isinstance(v, (Area, list)) or a[0] == 'ref':
                 # a list is a row/column handed on by INDEX(area,0,c) / INDEX(area,r,0): its items are area cells
                 vals = v.flat() if isinstance(v, Area) else v if isinstance(v, list) else [v]
                 for x in vals:
                     if isinstance(x, Err) or (isinstance(x, str) and x in ERROR_TEXTS):
                         raise NoOpinion('error value inside an aggregated area')
+                    if isinstance(x, (list, Area)) and isinstance(v, Area):
+                        raise NoOpinion('a cell whose value is a list inside an aggregated area')
                     if is_num(x):
                         nums.append(x)
                     elif isinstance(x, dt.datetime):
@@ -480,6 +484,8 @@ def _countblank(ev, a, sh, at):
     for x in a:
         v = ev.ev(x, sh, at)
         vals = v.flat() if isinstance(v, Area) else [v]
+        if any(isinstance(i, (list, Area)) for i in vals):
+            raise NoOpinion('a cell whose value is a list inside a counted area')
         n += sum(1 for i in vals if i is BLANK or i == '' and isinstance(i, str))
     return n
 
@@ -635,6 +641,16 @@ def _value(ev, a, sh, at):
         raise NoOpinion('VALUE of a non-text')
     t = v.strip()
     return float(t) if ('.' in t or 'e' in t.lower()) else int(t)
+
+
+@fn('TEXT', 2, 2)
+def _text(ev, a, sh, at):
+    # the library ignores the format (documented): only the case in which that cannot matter is judged - a whole number under "0"
+    v = ev.arg_scalar(a[0], sh, at)
+    fmt = ev.arg_scalar(a[1], sh, at)
+    if fmt == '0' and is_num(v) and not isinstance(v, bool) and v == int(v) and abs(v) < 1e15:
+        return int(v)          # Excel hands back the text of that integer; in arithmetic and under & it behaves like the number
+    raise NoOpinion('TEXT with a format that changes the value')
 
 
 # ---- C15 -----------------------------------------------------------------------------------------
